@@ -186,7 +186,11 @@ class NameSanitizer:
     def sanitize_tag_attr_name(tag: str) -> str:
         """Sanitize a tag for use as a snake_case attribute name (e.g., data_sources)."""
         attr = re.sub(r"[\W]+", "_", tag).lower()
-        return attr.strip("_") or "unnamed"
+        attr = attr.strip("_") or "unnamed"
+        # Avoid Python keywords
+        if keyword.iskeyword(attr):
+            attr += "_"
+        return attr
 
     @staticmethod
     def normalize_tag_key(tag: str) -> str:
